@@ -601,3 +601,68 @@ Lemma literal_ifs_refuted :
   spec_expand ex_oracles0 ex_colon_env [WText [97; 58; 98]%N] = Ok [[97; 58; 98]]%N /\
   full_expand ex_oracles0 ex_colon_env [WText [97; 58; 98]%N] = Ok [[97]; [98]]%N.
 Proof. split; vm_compute; reflexivity. Qed.
+
+(** * What field splitting does to characters — for EVERY IFS
+
+    split_only_removes_unquoted_ifs: read as tagged characters, the fields that come out of
+    [split_fields] are exactly the characters that went in, in order, minus the UNQUOTED characters
+    that are in IFS.  No quoted character is ever dropped, moved or used as a delimiter; no
+    unquoted character outside IFS is dropped. *)
+
+Definition keep (sep : str) (cq : char * bool) : bool := snd cq || negb (mem (fst cq) sep).
+
+Definition all_tagged (fs : list wfield) : list (char * bool) := concat (map tagged fs).
+
+Lemma all_tagged_flush cur acc : all_tagged (flush cur acc) = all_tagged acc ++ tagged cur.
+Proof.
+  unfold all_tagged. rewrite flush_spec. destruct cur; cbn [nonempty is_nil negb].
+  - now rewrite !app_nil_r.
+  - rewrite map_app, concat_app. cbn. now rewrite app_nil_r.
+Qed.
+
+Lemma filter_keep_quoted sep s : filter (keep sep) (map (fun c => (c, true)) s) = map (fun c => (c, true)) s.
+Proof. induction s; cbn; congruence. Qed.
+
+Lemma chars_keep sep s : forall cur acc,
+  let '(cur', acc') := split_chars sep s cur acc in
+  all_tagged acc' ++ tagged cur' =
+  all_tagged acc ++ tagged cur ++ filter (keep sep) (map (fun c => (c, false)) s).
+Proof.
+  induction s as [|c r IH]; intros cur acc; cbn [split_chars map filter].
+  - now rewrite app_nil_r.
+  - unfold keep at 1; cbn [fst snd orb]. destruct (mem c sep) eqn:Hm; cbn [negb].
+    + specialize (IH [] (flush cur acc)). destruct (split_chars sep r [] (flush cur acc)) as [cur' acc'].
+      rewrite IH, all_tagged_flush. cbn. now rewrite <- app_assoc.
+    + specialize (IH (push_char cur c) acc). destruct (split_chars sep r (push_char cur c) acc) as [cur' acc'].
+      rewrite IH, tagged_push_char. now rewrite <- !app_assoc.
+Qed.
+
+Lemma pieces_keep sep f : forall cur acc,
+  let '(cur', acc') := split_pieces sep f cur acc in
+  all_tagged acc' ++ tagged cur' = all_tagged acc ++ tagged cur ++ filter (keep sep) (tagged f).
+Proof.
+  induction f as [|p r IH]; intros cur acc; cbn [split_pieces].
+  - cbn. now rewrite app_nil_r.
+  - change (tagged (p :: r)) with (tag_piece p ++ tagged r). rewrite filter_app.
+    destruct p as [s|s]; cbn [tag_piece].
+    + specialize (IH (cur ++ [Unsplittable s]) acc).
+      destruct (split_pieces sep r (cur ++ [Unsplittable s]) acc) as [cur' acc'].
+      rewrite IH, tagged_app, filter_keep_quoted. cbn. rewrite app_nil_r. now rewrite <- !app_assoc.
+    + pose proof (chars_keep sep s cur acc) as H. destruct (split_chars sep s cur acc) as [cur1 acc1].
+      specialize (IH cur1 acc1). destruct (split_pieces sep r cur1 acc1) as [cur' acc'].
+      rewrite IH, app_assoc, H. now rewrite <- !app_assoc.
+Qed.
+
+Lemma loop_keep sep fs : forall acc,
+  all_tagged (split_loop sep fs acc) = all_tagged acc ++ filter (keep sep) (all_tagged fs).
+Proof.
+  induction fs as [|f r IH]; intros acc; cbn [split_loop].
+  - cbn. now rewrite app_nil_r.
+  - pose proof (pieces_keep sep f [] acc) as H. destruct (split_pieces sep f [] acc) as [cur acc'].
+    rewrite IH, all_tagged_flush, H. unfold all_tagged at 4. cbn [map concat]. rewrite filter_app.
+    cbn. now rewrite <- !app_assoc.
+Qed.
+
+Theorem split_only_removes_unquoted_ifs e x :
+  all_tagged (split_fields e x) = filter (keep (ifs_of e)) (all_tagged (fields x)).
+Proof. unfold split_fields. now rewrite loop_keep. Qed.
